@@ -749,6 +749,20 @@ def do_step(w: World, step: dict) -> None:
             raise Violation("configured_env_differs_from_fresh", step=step["id"], what=step["what"],
                             got=_short(after[ei]), expected=_short(exp))
         w.count("isolation_checked")
+    elif k == "burst":
+        # many unjudged renders in a row (state that only shows after N uses: pools, thresholds,
+        # caches that start answering once they are warm), then ordinary judged steps follow
+        st = w.shared.handles.get(step["h"])
+        if st is not None and st[0] == "ok":
+            for i in range(step["n"]):
+                d, _ = w.data({**step["data"], "seed": step["data"]["seed"] + i}, None, "d")
+                try:
+                    st[1].render(**d)
+                except Inconclusive:
+                    raise
+                except Exception:  # noqa: BLE001
+                    pass
+            w.count("burst_renders", step["n"])
     elif k == "repickle":
         # the application ships the parsed template through pickle (supported: tests/test_pickle.py)
         import pickle
@@ -1109,6 +1123,10 @@ def gen_plan(seed: int, tier: str) -> dict:
                 steps.append({"op": "render", "id": nid(), "h": hid, "mode": rng.choice("sa"), "data": ds})
         elif r < 0.585:
             steps.append({"op": "analyze", "id": nid(), "h": rng.choice(handles)[0]})
+        elif r < 0.588:
+            hid = rng.choice(handles)[0]
+            steps.append({"op": "burst", "id": nid(), "h": hid, "n": rng.choice([40, 130, 300]), "data": data_spec()})
+            steps.append({"op": "render", "id": nid(), "h": hid, "mode": rng.choice("sa"), "data": data_spec()})
         elif r < 0.592:
             # customise an environment, parse on it, ship the template through pickle, render
             cands = [i for i, e in enumerate(envs) if not e.get("default_global") and not e["loader"].startswith("c")]
